@@ -82,12 +82,15 @@ def _first_real_exc(sim):
 
 def check_exec(out, model, builds, partitions) -> Failure | None:
     sim = out.sim
-    if sim.deadlock is not None:
+    r, e = _first_real_exc(sim)
+    if sim.deadlock is not None and (e is None or type(e).__name__ in (
+            "PeerAborted", "DeadlockError")):
+        # (a deadlock that follows from a rank's own exception is reported
+        # as that exception, below)
         kind = "deadlock" if sim.deadlock.get("kind") == "deadlock" \
             else "livelock"
         return Failure(kind, json.dumps(sim.deadlock, default=str)[:900],
                        "execute_distributed_partition")
-    r, e = _first_real_exc(sim)
     if e is not None:
         name = type(e).__name__
         tb = sim.tracebacks[r] or ""
